@@ -180,12 +180,21 @@ def handle : Handler
       let nAgg ← nAgg.toInt?
       let c ← csrRat? n m ip ix dt
       let fb ← bool? fb
-      let rands ← natList? rands
+      let rands ← natListList? rands
       let mat := denseOf c
       match leidenFit kind res tolO tolA nAgg c.nRow c.nCol c.indices.size (at2 mat) fb coreFuel rands with
       | .error e => some (showErr e)
       | .ok none => some "fuel"
       | .ok (some o) => some s!"ok {showList o.labels} {showRatList o.increases}") "bad-args"
+  -- does `_pre_processing` accept the input?
+  | "c06.accepts", [kind, n, m, ip, ix, dt, fb] => some <| Option.getD (do
+      let kind ← kind? kind
+      let c ← csrRat? n m ip ix dt
+      let fb ← bool? fb
+      let mat := denseOf c
+      match preProcess kind c.nRow c.nCol c.indices.size (at2 mat) fb with
+      | .error _ => some "refused"
+      | .ok _ => some "accepted") "bad-args"
   -- the property on the implementation's own output: objective of the kind (documented formula, ℚ) not below
   -- the singletons, above them by the logged increases, clusters inside connected components
   | "c06.spec_fit", [kind, res, n, m, ip, ix, dt, fb, lab, incs, eps] => some <| Option.getD (do
